@@ -1581,3 +1581,14 @@ def shrink(ctx, failure):
         return (0 if c.get('exact', True) else 1, vol, len(c.get('request') or {}))
     cands = [f for f in ctx.failures if f.get('site') == site]
     return min(cands, key=size) if cands else failure
+
+
+def search(ctx, broken):
+    """Failing-input search after a broken tie: the same streams with a fresh seed and 3x the budget (the default 10x
+    would exceed the time cap of the tier with the repeated-read / round-trip dimensions switched on)."""
+    orig = ctx.n
+    ctx.n = lambda q, t=None: max(1, orig(q, t) * 3 // 10)
+    try:
+        run(ctx)
+    finally:
+        ctx.n = orig
